@@ -1891,6 +1891,10 @@ class KmipEngine(object):
                     managed_object,
                     attribute_name
                 )
+                if existing_attributes is None:
+                    # The attribute is multivalued but not stored by the
+                    # server, so there is no instance to modify.
+                    existing_attributes = []
                 if 0 <= attribute_index < len(existing_attributes):
                     self._set_attribute_on_managed_object_by_index(
                         managed_object,
